@@ -44,6 +44,11 @@ package indent
 //@   ensures  result >= 0
 //@   modifies iw.partial
 //
+// NewWriter: the writer it makes writes to the very writer it was given --
+// whatever that is, an indenting writer included: nesting is not collapsed,
+// the lines of the inner writer go through the outer one --, starts at the
+// beginning of a line, and its prefix is as long as the indent.
 //@ func NewWriter props C20
 //@   ensures  indent == "" ==> result == w
 //@   ensures  indent != "" ==> fresh(result)
+//@   ensures[it-writes-to-the-writer-it-was-given-from-the-start-of-a-line] indent != "" ==> typeis(result, *iw) && asptr(result, *iw).w == w && !asptr(result, *iw).partial && len(asptr(result, *iw).prefix) == len(indent)
